@@ -240,7 +240,7 @@ func (st *State) addCheck(c *Check) {
 	// preconditions of callees and loop invariants are not obligations of such a contract
 	if len(st.frames) > 0 && st.frames[0].contract != nil && st.frames[0].contract.Checks["structure"] {
 		switch c.Kind {
-		case "cancellable", "callsonly", "vacuity", "post":
+		case "cancellable", "callsonly", "vacuity", "post", "atcall":
 		default:
 			return
 		}
